@@ -140,6 +140,11 @@ def generate(rng, tier):
         table["titles"] = {rng.choice(fields): rng.choice(["Two\nLines", "T", "A longer title", ["Listed", "title"], ["One"]])}
     if rng.random() < 0.2:
         table["limits"] = [rng.randint(0, 3), rng.randint(0, 3)]
+        if rng.random() < 0.3:
+            # "a tuple of two optional integers": one side (or both) left open
+            table["limits"][rng.randrange(2)] = None
+            if rng.random() < 0.2:
+                table["limits"] = [None, None]
     if rng.random() < 0.2:
         plain = [f for f in fields if f != "status"]
         if plain:
@@ -196,7 +201,7 @@ def generate(rng, tier):
         else:
             # a sibling table built from this table's format object, showing other records
             ops.append({"op": "sibling", "keep": rng.choice(["half", "odd", "all", "first"]),
-                        "limits": rng.choice([None, None, [1, 1], [0, 2], [2, 0], [1, 0]]),
+                        "limits": rng.choice([None, None, [1, 1], [0, 2], [2, 0], [1, 0], [2, None], [None, 1]]),
                         "via_str": rng.random() < 0.45})
     ntbl = 1 + sum(1 for o in ops if o["op"] == "sibling")
     if ntbl > 1:
